@@ -264,25 +264,30 @@ impl Service {
     /// 刷新重新纳入本节点管理的实例
     /// 增量http实例增加过期管理
     pub(crate) fn do_refresh_process_range(&mut self) {
-        let instances: Vec<&Arc<Instance>> = self
+        let keys: Vec<InstanceShortKey> = self
             .instances
             .values()
             .filter(|instance| !instance.from_grpc && instance.is_from_cluster())
+            .map(|instance| instance.get_short_key())
             .collect();
-        //log::info!("do_refresh_process_range instance size:{}", instances.len());
-        for instance in instances {
-            /*
-            log::info!(
-                "do_refresh_process_range item,key:{:?},last_modified_millis:{},client_id:{}",
-                instance.get_short_key(),
-                instance.last_modified_millis,
-                &instance.client_id
-            );
-             */
-            self.healthy_timeout_set.add(
-                instance.last_modified_millis as u64,
-                instance.get_short_key(),
-            );
+        //log::info!("do_refresh_process_range instance size:{}", keys.len());
+        for key in keys {
+            let mut instance = match self.instances.get(&key) {
+                Some(instance) => instance.as_ref().clone(),
+                None => continue,
+            };
+            if instance.ephemeral {
+                // 接管后实例由本节点负责(与心跳更新时的处理一致),否则time_check会忽略该实例,停止心跳后永远不会过期
+                instance.from_cluster = 0;
+            }
+            if instance.healthy {
+                self.healthy_timeout_set
+                    .add(instance.last_modified_millis as u64, key.clone());
+            } else {
+                self.unhealthy_timeout_set
+                    .add(instance.last_modified_millis as u64, key.clone());
+            }
+            self.instances.insert(key, Arc::new(instance));
         }
     }
 
